@@ -386,6 +386,32 @@ def run(ctx) -> None:
         ctx.floor('Z7', n7, 3, 'uses of the signed flow profiles in pressure-drop and power expressions')          # (a shared helper halves the copies)
     from rules.helper_contract import run_shared
     run_shared(ctx, 'Z8', 'Z9', 10)
+    ctx.rule('Z10', 'the modelled reservoir pressure series stay what the predictors returned: in WellBores.Calculate no store to the production / '
+                    'injection reservoir pressure series follows the predictor call (re-tiling or rescaling it afterwards breaks the stated '
+                    'depletion / inflation rate and the monotone decline)')
+    wc_ = ctx.repo.method('WellBores', 'Calculate', 'geophires_x/WellBores.py')
+    for pred_, frag_ in (('ReservoirPressurePredictor', 'production_reservoir_pressure'), ('InjectionReservoirPressurePredictor', 'injection_reservoir_pressure')):
+        stores_ = [st for st in ast.walk(wc_.node) if isinstance(st, (ast.Assign, ast.AugAssign)) and
+                   any(frag_ in norm(t) and norm(t).split('[')[0].endswith('.value') and not norm(t).split('.')[-2].startswith('average')
+                       for t in (st.targets if isinstance(st, ast.Assign) else [st.target]))]
+        from_pred = [st for st in stores_ if isinstance(st, ast.Assign) and isinstance(st.value, ast.Call) and (dotted_name(st.value.func) or '') == pred_]
+        if not from_pred:
+            raise AnalysisError(f'WellBores.Calculate: no store of {pred_}(...) into the {frag_} series found (rewritten): cannot decide')
+        last_ = max(st.lineno for st in from_pred)
+        def _arms(n_):
+            out_ = {}
+            cur_, prev_ = parent(n_), n_
+            while cur_ is not None and cur_ is not wc_.node:
+                if isinstance(cur_, ast.If):
+                    out_[id(cur_)] = 'body' if any(prev_ is b_ for b_ in cur_.body) else 'orelse'
+                prev_, cur_ = cur_, parent(cur_)
+            return out_
+        pa_ = _arms(max(from_pred, key=lambda st: st.lineno))
+        later_ = [st for st in stores_ if st.lineno > last_ and not any(k_ in pa_ and pa_[k_] != v_ for k_, v_ in _arms(st).items())]
+        ctx.check(not later_, 'Z10', f'WellBores.Calculate/{frag_}-is-the-predictor-result', f'{wc_.module.rel}:{(later_[0] if later_ else from_pred[-1]).lineno}',
+                  f'`{norm(later_[0])[:90] if later_ else ""}` rewrites the {frag_.replace("_", " ")} series after {pred_} produced it: the series no longer '
+                  f'follows p(t) = p0 -/+ rate x t with its floor (e.g. it jumps back to the initial overpressure at each redrilling)',
+                  fact=f'last store is {pred_}(...)')
     ctx.undecided('monotonicity of the Colebrook friction loss in the diameter (numeric)', 'SBT/AGS hydraulic models',
                   'values of water properties')
     ctx.assume('overpressure percentage >= 100 and depletion rate > 0 (declared ranges) give overpressure >= 0 and a positive step count')
